@@ -254,6 +254,12 @@ def create (env : Env) (root : Root) (path : Bytes) (ty : InodeType) : M Unit :=
     (Sys.close dir : Prog Unit)
     M.ofExcept r
 
+/-- the creating open of `create_file`.  "." and ".." are refused before the call: with `O_PATH` the kernel ignores
+`O_CREAT`, and the open would be a plain lookup of `..` below the resolved parent. -/
+def createFileOpen (dir : Fd) (name : Bytes) (flags perm : Nat) : M Fd :=
+  if name = Path.dot ∨ name = Path.dotdot then throw (.os EISDIR)
+  else Sys.openat dir name (flags ||| O_CREAT) perm
+
 /-- `create_file` -/
 def createFile (env : Env) (root : Root) (path : Bytes) (flags perm : Nat) : M Fd := do
   let (dir, name) ← resolveParent env root path
@@ -262,7 +268,7 @@ def createFile (env : Env) (root : Root) (path : Bytes) (flags perm : Nat) : M F
     (Sys.close dir : Prog Unit)
     throw .invalidArgument
   | some name =>
-    let r ← M.try' (Sys.openat dir name (flags ||| O_CREAT) perm)
+    let r ← M.try' (createFileOpen dir name flags perm)
     (Sys.close dir : Prog Unit)
     M.ofExcept r
 
